@@ -15,6 +15,7 @@ import (
 	"os"
 	"strings"
 	"sync/atomic"
+	"time"
 
 	modtime "github.com/risor-io/risor/modules/time"
 	"github.com/risor-io/risor/object"
@@ -125,6 +126,8 @@ type caseT struct {
 	// already completed a run under the same context; "call" = the program is the body of a function
 	// invoked with vm.Call after a RunCode under the same context (what risor.Call does)
 	Mode string
+	// Deadline: the context of the evaluation also has a deadline (an hour away); it is cancelled long before
+	Deadline bool `json:"deadline,omitempty"`
 }
 
 func (c caseT) name() string {
@@ -134,6 +137,9 @@ func (c caseT) name() string {
 		if c.Mode == "cross" {
 			m = " [a Call under its own context on a VM whose earlier run, under another context, started the thread]"
 		}
+	}
+	if c.Deadline {
+		m += " [the context has a deadline an hour away]"
 	}
 	if c.K >= whenBlocked {
 		return fmt.Sprintf("%s + %s, cancel when the main task has blocked%s", c.Child.Name, c.Main.Name, m)
@@ -205,6 +211,9 @@ func (c caseT) scenario() *dsched.Scenario {
 		Setup: func() any {
 			st := &state{}
 			st.ctx, st.cancel = context.WithCancel(context.Background())
+			if c.Deadline {
+				st.ctx, st.cancel = context.WithDeadline(context.Background(), time.Now().Add(time.Hour))
+			}
 			return st
 		},
 		StepPoint: func(x *dsched.Exec, t *dsched.Task, m *vm.VirtualMachine, code op.Code) bool {
@@ -407,8 +416,24 @@ func Check(r *ev.Run, replay string) {
 					if ci == 0 && (strings.Contains(mn.Name, "blocked") || strings.HasPrefix(mn.Name, "wait-") || mn.Name == "sleep") {
 						ks = append(ks, whenBlocked) // and once the main task has blocked
 					}
+					type kd struct {
+						k        int
+						deadline bool
+					}
+					var kds []kd
 					for _, k := range ks {
-						c := caseT{ch, mn, k, mode}
+						kds = append(kds, kd{k, false})
+					}
+					if ci <= 1 && mode == "" && strings.Contains(mn.Src+ch.Src, "sleep") {
+						// a context that has a deadline as well and is cancelled long before it: the sleeps (of the main
+						// task, of a child) end at the cancellation, not at the deadline
+						for _, k := range ks {
+							kds = append(kds, kd{k, true})
+						}
+					}
+					for _, kdv := range kds {
+						k := kdv.k
+						c := caseT{ch, mn, k, mode, kdv.deadline}
 						sc := c.scenario()
 						b := bound
 						if b > 1 && (mode != "" || k > 8 || ci > 2) {
